@@ -46,6 +46,9 @@ META = {
     "C13": {"technique": "property-based testing of the loop step: generated item lists / parallelism / per-item scripts, concurrency high-water mark + per-item reference",
             "level_text": "Generated-input search over item lists, parallelism values, per-item outcomes and durations, nested loops and cancellation instants; concurrency is measured inside the scripted plugin, results are compared with a per-item reference evaluation.",
             "level_note": TB + "; forced overlap uses a gate with a 1.5 s timeout, so a serialising implementation is reported through the high-water mark, not a hang"},
+    "C15": {"technique": "property-based testing: tag-tree generators + reference semantics of the four tags over logged consumer inputs and the result",
+            "level_text": "Generated-input search over placements of the four tags with all source outcomes and completion orders; the reference gives each tag its declared meaning and the plugin log supplies what consumers really received and when.",
+            "level_note": TB + "; the soft-optional motif uses a gate with a 1.5 s timeout, so a blocking implementation is reported, not hung"},
 }
 
 NOT_APPLICABLE = []
